@@ -6,6 +6,7 @@ package genbank
 //
 // verif:bound C02 location trees: leaves = every span a..b and single base over a parent of 4 (quick) / 6 (thorough) bases, with every combination of partial markers; complement of any leaf; join with 2..3 (quick) / 2..4 (thorough) operands drawn from a reduced operand set (8 leaves and their complements), complement(join(..)), join containing complement(join(..)), join nested inside join; at most 3 operators, nesting depth 3
 // verif:bound C02 parent bases symbolic over the 15 IUPAC codes in lower case (as GenBank writes them): one path decides a location tree for every parent sequence
+// verif:bound C02 record-level clause: joins of 2..6 operands (optionally complemented) written on 1..4 lines of a feature table, read with Parse over a 12-base symbolic parent
 // verif:bound C02 outside the claim: parents longer than 6 bases (coordinates with several digits are covered by translator-validation vectors only), joins with more than 4 operands, nesting depth 4
 // verif:assume C02 the location tree is enumerated (forked); text -> structure is executed concretely per tree, the solver decides the base-level clauses for all parents
 
@@ -382,6 +383,53 @@ func Harness_C02_SubLocationsWithoutJoinFlag() {
 	vAssert(ok, "written-location-is-valid-insdc")
 	if ok {
 		vAssert(vEqStr(ev, want), "written-location-denotes-same-bases")
+	}
+}
+
+// locations read through the feature table of a whole record, written on one to four lines
+func Harness_C02_RecordLevel() {
+	const L = 12
+	parent := vBytes(L, "acgt")
+	tab := c02CompTable()
+	ops := []*c02Node{{kind: 0, a: 1, b: 2}, {kind: 2, children: []*c02Node{{kind: 0, a: 3, b: 5}}}, {kind: 1, a: 6}, {kind: 0, a: 7, b: 9, p5: true}, {kind: 2, children: []*c02Node{{kind: 1, a: 10}}}, {kind: 0, a: 11, b: 12}}
+	k := 2 + vChoice(5)
+	t := &c02Node{kind: 3, children: ops[:k]}
+	if vChoice(2) == 1 {
+		t = &c02Node{kind: 2, children: []*c02Node{t}}
+	}
+	text := t.text()
+	// break the text after commas into 1..4 lines
+	nl := 1 + vChoice(4)
+	var lines []string
+	rest := text
+	for i := 1; i < nl; i++ {
+		c := strings.Index(rest, ",")
+		if c < 0 {
+			break
+		}
+		lines = append(lines, rest[:c+1])
+		rest = rest[c+1:]
+	}
+	lines = append(lines, rest)
+	rec := gRec{name: "recrd", mol: "DNA", topo: "linear", div: "SYN", date: "12-APR-2021", def: "d.", acc: "A", ver: "A.1", kw: ".", src: "s", org: "o",
+		feats: []gFeat{{key: "CDS", locLines: lines, quals: []gQual{{"product", "p"}}}, {key: "gene", locLines: []string{"2..3"}}},
+		seq:   parent}
+	var s poly.Sequence
+	panicked := vPanics(func() { s = Parse([]byte(rec.write(true))) })
+	vAssert(!panicked, "parsed-location-does-not-panic")
+	if panicked {
+		return
+	}
+	vAssert(len(s.Features) == 2, "features-in-file-order")
+	if len(s.Features) == 2 {
+		vAssert(s.Features[0].GbkLocationString == text, "location-text-rejoined")
+		var got string
+		p2 := vPanics(func() { got = s.Features[0].GetSequence() })
+		vAssert(!p2, "parsed-location-does-not-panic")
+		if !p2 {
+			vAssert(vEqStr(got, t.eval(parent, tab)), "parsed-location-denotes-insdc-bases")
+		}
+		vAssert(vEqStr(s.Features[1].GetSequence(), parent[1:3]), "parsed-location-denotes-insdc-bases")
 	}
 }
 
